@@ -4,10 +4,11 @@ From Coq Require Import List Arith Bool.
 From JV Require Import SetNcomp History HistoryFacts.
 Import ListNotations.
 
-(* for EVERY accepted sequence of insert / delete_channel / record / delete_recordings /
-   stimulate / delete_stimuli / add_to_group / set_ncomp operations on arbitrary row sets
+(* for EVERY accepted sequence of insert / delete_channel / set / set_ncomp / add_to_group /
+   record / delete_recordings / stimulate / clamp / delete_stimuli / delete_clamps /
+   make_trainable / delete_trainables / init_states operations on arbitrary row sets
    (any channel-to-column ownership, shared columns included) the tables stay consistent:
-   recordings, inputs, groups and channel flags refer to existing rows, and every parameter
+   recordings, inputs, groups, trainables and channel flags refer to existing rows, and every parameter
    column is defined exactly on the rows of the channels that own it *)
 Theorem C19_every_history_is_consistent :
   forall (owns : nat -> list nat) (nchan : nat) (h : list op) (s : st),
@@ -26,6 +27,22 @@ Theorem C19_old_delete_refuted :
   let s := run owns_ex 2 (init 2) [Insert 0 [0; 1]; Insert 1 [0; 1]; DeleteOld 0 [0; 1]] in
   chan s 1 = [0; 1] /\ col s 0 = [].
 Proof. exact delete_old_refuted. Qed.
+
+(* deleting the trainables of a view removes exactly the rows of the view from every group of
+   every trainable, leaves no empty group or trainable behind and touches nothing else (and
+   the old behaviour, which kept trainables of geometric keys, is refuted) *)
+Theorem C19_delete_trainables_exact : forall owns nchan s rows r,
+  (exists tr g, In tr (trains (step owns nchan s (DeleteTrainables rows))) /\ In g tr /\ In r g) <->
+  (~ In r rows /\ exists tr g, In tr (trains s) /\ In g tr /\ In r g).
+Proof. exact delete_trainables_exact. Qed.
+Theorem C19_delete_trainables_leaves_nothing_empty : forall owns nchan s rows,
+  Forall (fun tr => tr <> [] /\ Forall (fun g => g <> []) tr) (trains (step owns nchan s (DeleteTrainables rows))).
+Proof. exact delete_trainables_no_empty. Qed.
+Theorem C19_old_delete_trainables_refuted :
+  let h del := [MakeTrainable [[0; 1]]; MakeTrainable [[0]; [1]; [2]]; del] in
+  trains (run owns_ex 2 (init 3) (h (DeleteTrainablesOld [0; 1]))) = [[[0; 1]]; [[0]; [1]; [2]]] /\
+  trains (run owns_ex 2 (init 3) (h (DeleteTrainables [0; 1]))) = [[[2]]].
+Proof. exact delete_trainables_old_refuted. Qed.
 
 Example C19_nonvacuous :
   all_valid owns_ex 2 (init 3) [Insert 0 [0; 2]; AddToGroup 0 [1; 2]; SetNcomp 0 1 2; Record_ [3]].
